@@ -110,20 +110,23 @@ theorem refObjectsT_eq {texts : Nat → String} (f : File) (k : Nat) (inj : Text
 /-- the texts of a history do not repeat among `ks` when the caller's ids are fit (the part of `SuppliedOK` about
 ids, for the keys `ks`) -/
 theorem textsInjOn_of_supplied {given : List (Nat × String)} {gen : Nat → String} {ks : List Nat}
-    (genInj : ∀ a ∈ ks, ∀ b ∈ ks, gen a = gen b → a = b) (givenNodup : (given.map Prod.snd).Nodup)
-    (sep : ∀ k t, (k, t) ∈ given → ∀ a ∈ ks, t ≠ gen a) : TextsInjOn (textsOf given gen) ks := by
-  have cases_text : ∀ a, (∃ t, (a, t) ∈ given ∧ textsOf given gen a = t) ∨ textsOf given gen a = gen a := by
+    (genInj : ∀ a ∈ ks, given.lookup a = none → ∀ b ∈ ks, given.lookup b = none → gen a = gen b → a = b)
+    (givenNodup : (given.map Prod.snd).Nodup)
+    (sep : ∀ k t, (k, t) ∈ given → ∀ a ∈ ks, given.lookup a = none → t ≠ gen a) :
+    TextsInjOn (textsOf given gen) ks := by
+  have cases_text : ∀ a, (∃ t, (a, t) ∈ given ∧ textsOf given gen a = t) ∨
+      (given.lookup a = none ∧ textsOf given gen a = gen a) := by
     intro a
     unfold textsOf
     cases hl : given.lookup a with
-    | none => exact .inr rfl
+    | none => exact .inr ⟨rfl, rfl⟩
     | some t => exact .inl ⟨t, lookup_mem hl, rfl⟩
   intro a ha b hb hab
-  rcases cases_text a with ⟨ta, hma, hta⟩ | hta <;> rcases cases_text b with ⟨tb, hmb, htb⟩ | htb
+  rcases cases_text a with ⟨ta, hma, hta⟩ | ⟨hla, hta⟩ <;> rcases cases_text b with ⟨tb, hmb, htb⟩ | ⟨hlb, htb⟩
   · have e : ta = tb := hta.symm.trans (hab.trans htb)
     exact snd_inj_of_nodup givenNodup hma (e ▸ hmb)
-  · exact absurd (hta.symm.trans (hab.trans htb)) (sep _ _ hma b hb)
-  · exact absurd (htb.symm.trans (hab.symm.trans hta)) (sep _ _ hmb a ha)
-  · exact genInj a ha b hb (hta.symm.trans (hab.trans htb))
+  · exact absurd (hta.symm.trans (hab.trans htb)) (sep _ _ hma b hb hlb)
+  · exact absurd (htb.symm.trans (hab.symm.trans hta)) (sep _ _ hmb a ha hla)
+  · exact genInj a ha hla b hb hlb (hta.symm.trans (hab.trans htb))
 
 end Nix.Tree.Ids
